@@ -102,6 +102,8 @@ def main(tier):
                 RP.instance()
                 b = u.elf.sym_extent('poly')
                 RP.check(len(b) >= 16 and set(b[:16]) == {0x1d}, '%s:poly' % u.name, 'reduction constant bytes %s, expected 0x1d replicated' % b[:16].hex(), sample='%s poly = 1d x16' % sym if sym == 'pq_gen_sse' else None)
+    provenance.check_undef(rep, {'raid_xor_gen', 'raid_pq_gen', 'raid_xor_check', 'raid_pq_check'}, 'RAID', 9)
+    provenance.check_kwidth(rep, {'raid_xor_gen', 'raid_pq_gen', 'raid_xor_check', 'raid_pq_check'}, 'RAID', 9)
     # portable C: the SWAR constants of pq_gen_base / pq_check_base, evaluated by the compiler
     import mirror
     v, drop = mirror.c_values('default', [__import__('common').REPO + '/raid/raid_base.c'], [('gf8poly', 'gf8poly'), ('bit7', 'bit7'), ('notbit0', 'notbit0'), ('w', 'sizeof(unsigned long)')], 'raidpoly')
